@@ -93,7 +93,10 @@ func (t *TfdtBox) Type() string {
 
 // Size - return calculated size
 func (t *TfdtBox) Size() uint64 {
-	return uint64(boxHeaderSize + 8 + 4*int(t.Version))
+	if t.Version == 0 {
+		return uint64(boxHeaderSize + 8)
+	}
+	return uint64(boxHeaderSize + 12) // 64-bit time for all other versions
 }
 
 // Encode - write box to w
